@@ -77,9 +77,7 @@ def answer (l : String) : String :=
   | ["bkt", f, _] => cls (bkOpen (unhexT f))
   -- blocktimeindex
   | ["bt", f, "get", slot] =>
-    let data := unhexT f
-    if data.length > 38 ∧ data.length < 46 then "cut-capacity" else
-    (match (btUnmarshal data).outcome with
+    (match (btUnmarshal (unhexT f)).outcome with
      | .ok i => showWith (btGet i slot.toNat!) fun o => match o with | some v => toString v | none => "oor"
      | .err _ => "err"
      | .panic _ => "panic")
